@@ -5,7 +5,7 @@ CONSTANTS
   Kind = "nameaddr"
   Atoms <- AtomsKnownW
   Prefix <- PfxAS
-  MaxLen = 9
+  MaxLen = 10
   Cfgs <- CfgsNA8
   Junk = 34
   EmitOn = TRUE
